@@ -81,18 +81,19 @@ impl<L: Language, N: Analysis<L>> EGraph<L, N> {
 
         let syn_slots = &self.syn_slots(id);
         let c = self.classes.get_mut(&id).unwrap();
-        let grp = &c.group;
 
-        let mut final_cap = cap.clone();
-
-        // d is a newly redundant slot.
-        for d in &c.slots - &cap {
-            // if d is redundant, then also the orbit of d is redundant.
-            final_cap = &final_cap - &grp.orbit(d);
-        }
-
+        #[allow(unused)]
+        let old_slots = c.slots.clone();
         c.slots = cap.clone();
-        let generators = c.group.generators();
+
+        // A symmetry that maps a kept slot to a dropped slot (or vice versa) cannot be restricted to `cap`:
+        // if d is redundant, then also the orbit of d is redundant.
+        // Such symmetries are re-asserted as equations below, which shrinks the class further.
+        let (generators, orbit_generators): (Vec<ProvenPerm>, Vec<ProvenPerm>) = c
+            .group
+            .generators()
+            .into_iter()
+            .partition(|pp| pp.iter().all(|(x, y)| cap.contains(&x) == cap.contains(&y)));
         let _ = c;
 
         let restrict_proven = |proven_perm: ProvenPerm| {
@@ -130,6 +131,17 @@ impl<L: Language, N: Analysis<L>> EGraph<L, N> {
         c.group = Group::new(&identity, generators);
 
         self.touched_class(from.id, PendingType::Full);
+
+        for pp in orbit_generators {
+            #[cfg(feature = "explanations")]
+            let (l, r) = (pp.proof.l.clone(), pp.proof.r.clone());
+            #[cfg(not(feature = "explanations"))]
+            let (l, r) = (
+                AppliedId::new(id, SlotMap::identity(&old_slots)),
+                AppliedId::new(id, pp.elem.clone()),
+            );
+            self.union_internal(&l, &r, ghost!(pp.proof.clone()));
+        }
     }
 
     pub(crate) fn rebuild(&mut self) {
